@@ -9,9 +9,12 @@ From LV Require Import Model.Frontend Model.FrontendSpec Proofs.Frontend Proofs.
 Import ListNotations.
 Open Scope N_scope.
 
-Definition KnownPanicClass (p : parsed) : Prop := known_panic_class p = true.
+(* the invariants of what sqlparser and Rust's str type can hand to parse_query: texts are valid
+   UTF-8 and number tokens parse as f64 (FrontendSpec.parser_output; facts about the trusted
+   parser, checked on every generated case by the correspondence run) *)
+Definition ParserOutput (p : parsed) : Prop := parser_output p = true.
 
-(* ---- witnesses ------------------------------------------------------------------------------ *)
+(* ---- former witnesses --------------------------------------------------------------------------- *)
 
 Definition b_i : bytes := [105].
 Definition b_t : bytes := [116].
@@ -47,44 +50,66 @@ Definition w_multibyte_table : parsed :=
 (* the empty string, ";" : no statement at all *)
 Definition w_no_statement : parsed := POk [].
 
-(* plain totality is refuted by the faithful model: each witness is a query text on which the
-   implementation panics in the caller (finding F6) *)
-Theorem C12_total_refuted :
-  parse_query w_limit_fraction = Panic PSLimitUnwrap /\
-  parse_query w_limit_huge = Panic PSLimitUnwrap /\
-  parse_query w_offset_fraction = Panic PSOffsetUnwrap /\
-  parse_query w_lone_quote = Panic PSStripRange /\
-  parse_query w_multibyte_text = Panic PSStripBoundary /\
-  parse_query w_multibyte_table = Panic PSStripBoundary /\
-  parse_query w_no_statement = Panic PSPopUnwrap.
-Proof. vm_compute. repeat split. Qed.
+(* the inputs on which the unrepaired conversion panicked in the caller (finding F6, fixed by
+   ec6c954, 88d707c, 7f4db9b) now yield ParseError, or convert with the expected names *)
+Theorem C12_former_witnesses_repaired :
+  parse_query w_limit_fraction = Err ParseError /\
+  parse_query w_limit_huge = Err ParseError /\
+  parse_query w_offset_fraction = Err ParseError /\
+  parse_query w_no_statement = Err ParseError /\
+  (exists q, parse_query w_lone_quote = Val q /\ output_names q = [[34; 34]] /\
+             map ci_expr (q_select q) = [ColName [34]]) /\
+  (exists q, parse_query w_multibyte_text = Val q /\
+             output_names q = [[34; 105; 34; 32; 61; 32; 195; 169]]) /\
+  (exists q, parse_query w_multibyte_table = Val q /\ q_table q = [34; 116; 34; 46; 195; 169]).
+Proof.
+  repeat match goal with |- _ /\ _ => split end; try (vm_compute; reflexivity);
+    eexists; vm_compute; repeat split; reflexivity.
+Qed.
 
-Theorem C12_witnesses_in_class :
-  Forall KnownPanicClass [w_limit_fraction; w_limit_huge; w_offset_fraction; w_lone_quote;
-                          w_multibyte_text; w_multibyte_table; w_no_statement].
-Proof. repeat constructor. Qed.
+(* ---- totality ------------------------------------------------------------------------------------- *)
 
-(* ---- guarded totality ------------------------------------------------------------------------- *)
-
-(* outside the class, for EVERY reduced AST, the conversion returns a query or an error value *)
-Theorem C12_total_guarded :
-  forall p, ~ KnownPanicClass p ->
+(* for EVERY reduced AST the parser can produce, the conversion returns a query or an error value *)
+Theorem C12_total :
+  forall p, ParserOutput p ->
     (exists q, parse_query p = Val q) \/ (exists k, parse_query p = Err k).
 Proof.
-  intros p H. assert (N : known_panic_class p = false).
-  { unfold KnownPanicClass in H. destruct (known_panic_class p); congruence. }
-  pose proof (parse_query_not_panic p N) as P.
+  intros p H. pose proof (parse_query_not_panic p H) as P.
   destruct (parse_query p) as [q|k|s]; [left|right|discriminate]; eauto.
+Qed.
+
+(* the two panic sites left in the conversion are exactly the parser invariants: without them the
+   model does panic (so the premise of C12_total is not decoration) *)
+Theorem C12_total_needs_parser_invariants :
+  convert_expr (EValue (VNumber [120] None)) = Panic PSFloatUnwrap /\
+  strip_quotes [34; 169; 34] = Panic PSStripBoundary /\
+  parser_output (plain_select [SIUnnamed (EIdent b_i) [34; 169; 34]] b_t LCNone) = false.
+Proof. vm_compute. repeat split. Qed.
+
+(* LIMIT / OFFSET and the statement count never panic, whatever the AST *)
+Theorem C12_counts_total :
+  (forall l, exists r, get_limit l = Val r \/ exists k, get_limit l = Err k) /\
+  (forall o, exists r, get_offset o = Val r \/ exists k, get_offset o = Err k) /\
+  (forall text f, parse_u64 text = None ->
+     get_limit (Some (EValue (VNumber text f))) = Err ParseError /\
+     get_offset (Some (EValue (VNumber text f))) = Err ParseError).
+Proof.
+  repeat split.
+  - intro l. pose proof (limit_not_panic l) as P.
+    destruct (get_limit l) as [v|k|s]; [exists v; left; reflexivity|exists 0; right; eauto|discriminate].
+  - intro o. pose proof (offset_not_panic o) as P.
+    destruct (get_offset o) as [v|k|s]; [exists v; left; reflexivity|exists 0; right; eauto|discriminate].
+  - apply limit_literal_err. assumption.
+  - apply limit_literal_err. assumption.
 Qed.
 
 (* ... and it returns a query exactly for the supported grammar *)
 Theorem C12_accepts_exactly_supported :
-  forall p, ~ KnownPanicClass p ->
+  forall p, ParserOutput p ->
     (supported p = true -> exists q, parse_query p = Val q) /\
     (supported p = false -> exists k, parse_query p = Err k).
 Proof.
-  intros p H. assert (N : known_panic_class p = false).
-  { unfold KnownPanicClass in H. destruct (known_panic_class p); congruence. }
+  intros p N.
   pose proof (parse_query_not_panic p N) as P. pose proof (parse_query_is_val p N) as V.
   split; intro S; rewrite S in V; destruct (parse_query p) as [q|k|s]; try discriminate; eauto.
 Qed.
@@ -107,6 +132,7 @@ Theorem C12_unsupported_is_error :
   (forall ob lc, parse_query (POk [StQuery BdOther ob lc]) = Err NotImplemented) /\
   (* INSERT / UPDATE / DELETE / DDL, several statements, text the parser rejects *)
   parse_query (POk [StOther]) = Err ParseError /\
+  parse_query (POk []) = Err ParseError /\
   (forall a b rest, parse_query (POk (a :: b :: rest)) = Err ParseError) /\
   parse_query PParserError = Err ParseError /\
   parse_query POtherError = Err Fatal /\
@@ -136,6 +162,7 @@ Proof.
   - exact shell_unsupported_err.
   - exact set_operation_err.
   - reflexivity.
+  - reflexivity.
   - exact several_statements_err.
   - reflexivity.
   - reflexivity.
@@ -150,10 +177,10 @@ Proof.
   - exact function_wrong_arity.
 Qed.
 
-(* a statement with an unsupported part anywhere is rejected with an error value (outside the
-   panic class): this is C12_accepts_exactly_supported read from right to left *)
+(* a statement with an unsupported part anywhere is rejected with an error value: this is
+   C12_accepts_exactly_supported read from right to left *)
 Theorem C12_not_supported_never_answered :
-  forall p q, ~ KnownPanicClass p -> parse_query p = Val q -> supported p = true.
+  forall p q, ParserOutput p -> parse_query p = Val q -> supported p = true.
 Proof.
   intros p q H E. destruct (supported p) eqn:S; [reflexivity|].
   destruct (C12_accepts_exactly_supported p H) as [_ B]. destruct (B S) as (k & K). congruence.
@@ -195,33 +222,38 @@ Proof. exact normalize_final. Qed.
 
 (* ---- the output slice ------------------------------------------------------------------------------ *)
 
-(* convert_to_output_format returns `count` rows starting at `offset`: never more than LIMIT, never
-   past the end — unless OFFSET exceeds the number of rows, where the subtraction underflows
-   (finding F5) *)
+(* convert_to_output_format returns `count` rows starting at `offset'`: never more than LIMIT, never
+   past the end, for EVERY limit / offset / result length (since fix 0df51a0 the offset is clamped:
+   an OFFSET beyond the result leaves no rows instead of underflowing) *)
 Theorem C12_slice :
   forall limit offset len,
-    (offset <= len -> exists c, output_slice limit offset len = Slice offset c /\ c <= limit /\ offset + c <= len) /\
-    (len < offset -> output_slice limit offset len = SlicePanic).
+    let '(o, c) := output_slice limit offset len in
+    o <= len /\ c <= limit /\ o + c <= len /\
+    (offset <= len -> o = offset /\ c = N.min limit (len - offset)) /\
+    (len <= offset -> c = 0).
 Proof.
-  intros limit offset len. unfold output_slice. split; intro H.
-  - destruct (N.ltb_spec len offset) as [L|L]; [lia|].
-    exists (N.min limit (len - offset)). repeat split; lia.
-  - destruct (N.ltb_spec len offset) as [L|L]; [reflexivity|lia].
+  intros limit offset len. unfold output_slice. repeat split; try lia.
 Qed.
 
-Theorem C12_slice_refuted : output_slice 2 13 12 = SlicePanic /\ combined_limit true u64_max 3 = SumPanic.
-Proof. vm_compute. split; reflexivity. Qed.
-
+(* limit + offset saturates instead of overflowing *)
 Theorem C12_combined_limit :
-  forall checked limit offset, limit + offset <= u64_max -> combined_limit checked limit offset = Sum (limit + offset).
+  forall limit offset,
+    combined_limit limit offset <= u64_max /\
+    (limit + offset <= u64_max -> combined_limit limit offset = limit + offset) /\
+    (u64_max <= limit + offset -> combined_limit limit offset = u64_max).
 Proof.
-  intros c l o H. unfold combined_limit. destruct (N.ltb_spec u64_max (l + o)); [lia|reflexivity].
+  intros l o. unfold combined_limit. repeat split; lia.
 Qed.
+
+(* the former witnesses of finding F5: OFFSET 13 on 12 rows, OFFSET 3 without LIMIT *)
+Example C12_slice_former_witnesses :
+  output_slice 2 13 12 = (12, 0) /\ combined_limit u64_max 3 = u64_max.
+Proof. vm_compute. split; reflexivity. Qed.
 
 (* ---- non-vacuity ------------------------------------------------------------------------------------ *)
 
 (* SELECT a AS x, COUNT(1), "i", * FROM t WHERE i > 1 [ORDER BY i DESC] LIMIT 10 OFFSET 2 : supported,
-   outside the class, converted, names in order; with the ORDER BY a final pass is needed *)
+   within the parser invariants, converted, names in order; with the ORDER BY a final pass is needed *)
 Definition ex_query_with (ob : order_by) : parsed :=
   POk [StQuery (BdSelect {| s_distinct := false;
                             s_projection := [SIAlias (EIdent [97]) [120];
@@ -237,7 +269,7 @@ Definition ex_query_with (ob : order_by) : parsed :=
 
 Example C12_example :
   let ex_query := ex_query_with OBNone in
-  ~ KnownPanicClass ex_query /\ supported ex_query = true /\
+  ParserOutput ex_query /\ supported ex_query = true /\
   match parse_query ex_query with
   | Val q => output_names q = [[120]; [67; 79; 85; 78; 84; 40; 49; 41]; [105]; [42]]
              /\ q_limit q = 10 /\ q_offset q = 2
